@@ -191,6 +191,34 @@ func C17(ctx *core.Ctx) {
 		}
 	}
 
+	// ---- R3b the context (and its mutex) is never copied as a value ------------------
+	{
+		n := 0
+		for _, fn := range r.Fns {
+			ssax.Instrs(fn, func(in ssa.Instruction) {
+				v, ok := in.(ssa.Value)
+				if !ok {
+					return
+				}
+				if _, isPtr := v.Type().(*types.Pointer); isPtr {
+					return
+				}
+				if !ssax.TypeNamed(v.Type(), "", "FContextImpl") {
+					return
+				}
+				if _, isStruct := v.Type().Underlying().(*types.Struct); !isStruct {
+					return
+				}
+				n++
+				ctx.Violate("C17.R3", ssax.Name(fn)+" › FContextImpl value "+v.Name()+" = "+v.String(), r.IPos(in),
+					"a whole FContextImpl (with its RWMutex) is loaded/copied as a value: the copy inherits the lock state of the original at that instant (a reader or writer in progress), so the clone's first operation can block forever, and it is taken without the lock")
+			})
+		}
+		if n == 0 {
+			ctx.Discharge("C17.R3", "FContextImpl is handled by pointer only", "lib/go/context.go", "no instruction produces a FContextImpl struct value")
+		}
+	}
+
 	// ---- R4 fresh op id on every construction ------------------------------------
 	opidConst := constString(r, "opIDHeader")
 	isFreshOpID := func(v ssa.Value) bool {
